@@ -32,6 +32,7 @@ fn main() {
     let mut nondet: HashMap<i64, VecDeque<(u32, u64)>> = HashMap::new();
     let mut schedule = Vec::new();
     let mut trace = false;
+    let mut pres: HashMap<usize, String> = HashMap::new();
     for line in text.lines() {
         let w: Vec<&str> = line.split_whitespace().collect();
         if w.is_empty() || w[0].starts_with('#') {
@@ -48,6 +49,9 @@ fn main() {
                 .push_back((w[2].parse().unwrap(), w[3].parse().unwrap())),
             "schedule" => schedule.extend(w[1..].iter().map(|x| x.parse::<i64>().unwrap())),
             "trace" => trace = true,
+            "pre" => {
+                pres.insert(w[1].parse().unwrap(), w[2].to_string());
+            }
             _ => {}
         }
     }
@@ -95,13 +99,32 @@ fn main() {
             f();
         }
         let mut hs = Vec::new();
+        let n = entries.len();
+        let turn = std::sync::Arc::new(std::sync::atomic::AtomicUsize::new(1));
+        let barrier = std::sync::Arc::new(std::sync::Barrier::new(n));
+        let end_barrier = std::sync::Arc::new(std::sync::Barrier::new(n));
         for (i, e) in entries.into_iter().enumerate() {
             let f = lookup(&e);
             let id = i as i64 + 1;
+            let pre = pres.get(&(i + 1)).map(|p| lookup(p));
+            let turn = turn.clone();
+            let barrier = barrier.clone();
+            let end_barrier = end_barrier.clone();
             hs.push(std::thread::spawn(move || {
+                // prologues run one after another, ungated, each on its own thread
+                while turn.load(std::sync::atomic::Ordering::SeqCst) != id as usize {
+                    std::thread::yield_now();
+                }
+                if let Some(p) = pre {
+                    p();
+                }
+                turn.fetch_add(1, std::sync::atomic::Ordering::SeqCst);
+                barrier.wait();
                 native::set_my_id(id);
                 let r = std::panic::catch_unwind(|| f());
                 native::set_my_id(-1);
+                // no thread exits (and runs its thread-local destructors) before all bodies are done
+                end_barrier.wait();
                 r.is_ok()
             }));
         }
